@@ -260,6 +260,11 @@ def check(prop, tier, seed):
             elif r.ob.meta.get('conservative'):
                 undecided.append('%s: the ownership analysis cannot show this site writes fresh objects only (conservative analysis), and the native probe found no effect: %s' % (
                     r.name, str(verdict.get('detail', ''))[:160]))
+            elif verdict.get('fails') is False:
+                # the obligation fails in the encoding, but its counterexample - concretised, or the native battery of this clause - holds on the real
+                # code: the model is an artefact of an abstraction (an uninterpreted operation, an approximated construct) that the changed code no
+                # longer fits, not a failing input.  Reported, not an alarm.
+                undecided.append('%s: fails in the encoding, but no counterexample reproduces on the real code (%s)' % (r.name, str(verdict.get('detail', ''))[:140]))
             elif in_lock:
                 violations.append((key, path, ' no-failing-input-found', verdict.get('detail', '')))
             else:
